@@ -234,7 +234,7 @@ func (e *Exchange) wireResponse() []byte {
 // ---------------------------------------------------------------- generator
 
 var (
-	methods    = []string{"GET", "GET", "POST", "POST", "PUT", "DELETE", "PATCH", "OPTIONS", "HEAD", "PURGE", "REPORT"}
+	methods    = []string{"GET", "GET", "POST", "POST", "PUT", "DELETE", "PATCH", "OPTIONS", "HEAD", "PURGE", "REPORT", "GET", "POST", "connect", "Connect", "get", "M-SEARCH"}
 	reqNames   = []string{"Accept", "X-Req-A", "x-lower-req", "X-UPPER-REQ", "Cookie", "Authorization", "Accept-Language", "X-Multi", "X-Multi", "User-Agent", "Accept-Encoding", "Referer", "X-Forwarded-For", "Via", "Cache-Control", "If-None-Match"}
 	resNames   = []string{"Content-Type", "X-Res-A", "x-lower-res", "X-UPPER-RES", "Set-Cookie", "Set-Cookie", "Cache-Control", "Etag", "Vary", "X-Multi-Res", "X-Multi-Res", "Via", "Warning", "Content-Language"}
 	statuses   = []int{200, 200, 200, 201, 204, 206, 301, 304, 404, 500, 503}
@@ -330,6 +330,12 @@ func genExchange(t *rapid.T, maxBody int, last bool) Exchange {
 	e.Status = rapid.SampledFrom(statuses).Draw(t, "status")
 	e.Interim = rapid.IntRange(0, 19).Draw(t, "interim") == 0
 	e.ResHeaders = genHeaders(t, resNames, 6, "resh")
+	if rapid.IntRange(0, 59).Draw(t, "huge_head") == 0 {
+		// a response header block well past 1 MiB (the transport's own limit is 10 MiB)
+		for i := 0; i < 150; i++ {
+			e.ResHeaders = append(e.ResHeaders, Hdr{fmt.Sprintf("X-Bulk-%d", i), string(kit.Text(uint64(i+1), 8000))})
+		}
+	}
 	if e.Status == 301 {
 		e.ResHeaders = append(e.ResHeaders, Hdr{"Location", "http://elsewhere.test/moved?x=1"})
 	}
@@ -862,6 +868,12 @@ func classes(c Case) []string {
 		}
 		if e.HTTP10 {
 			flags["http10-request"] = true
+		}
+		if len(e.ResHeaders) > 100 {
+			flags["response-head>1MiB"] = true
+		}
+		if e.Method != strings.ToUpper(e.Method) {
+			flags["method-not-upper-case"] = true
 		}
 		if e.KeepAlive10 {
 			flags["http10-keep-alive-request"] = true
